@@ -1757,6 +1757,41 @@ def scenario_certify_collapse(cid, k=0):
             "certify_collapse": {"weak": weak, "strong": strong}}
 
 
+def scenario_certify_guess(cid, k=0):
+    """deterministic history: `certify <crate> <from> <to>` WITHOUT --criteria — cargo-vet pre-selects the criteria itself
+    (guess_audit_criteria) and the user presses ENTER.
+    k=0: the version in use passes only through a `suggest = true` exemption and <from> is not audited at all: nothing
+         connects, nothing may be pre-selected (the command ends with "no criteria chosen");
+    k=1: the same, but <from> carries a full audit for safe-to-deploy: safe-to-deploy is pre-selected and recorded;
+    k=2: the version in use FAILS (no exemption), <from> is audited for safe-to-run only, the crate needs safe-to-deploy:
+         only safe-to-run connects;
+    k=3: as k=1 with a custom criterion the crate also needs and <from> is not audited for: only safe-to-deploy connects."""
+    pkgs = [{"name": "wsaaa", "version": "1.0.0", "source": "path", "workspace": True,
+             "deps": [{"name": "tpaaa", "version": "2.0.0", "source": "registry", "kinds": ["normal"]}]},
+            {"name": "tpaaa", "version": "2.0.0", "source": "registry", "workspace": False, "deps": []}]
+    store = {"criteria": {}, "policy": {}, "imports": {}, "exemptions": {}, "audits": {}, "wildcard_audits": {}, "trusted": {},
+             "lock": {"audits": {}, "publisher": {}, "unpublished": {}}}
+    need = ["safe-to-deploy"]
+    if k % 4 == 3:
+        store["criteria"] = {"crit-a": {"description": "another", "implies": []}}
+        store["policy"]["wsaaa"] = {"criteria": ["safe-to-deploy", "crit-a"]}
+        need = ["safe-to-deploy", "crit-a"]
+    if k % 4 in (0, 1, 3):
+        store["exemptions"]["tpaaa"] = [{"version": "2.0.0", "criteria": need, "suggest": True, "notes": "as after init"}]
+    if k % 4 in (1, 3):
+        store["audits"]["tpaaa"] = [{"kind": "full", "version": "1.0.0", "criteria": ["safe-to-deploy"], "notes": "the old release"}]
+    if k % 4 == 2:
+        store["audits"]["tpaaa"] = [{"kind": "full", "version": "1.0.0", "criteria": ["safe-to-run"], "notes": "the old release, lightly"}]
+    registry = {"users": [[1, "user1", "User 1"]], "packages": {"tpaaa": [{"version": "1.0.0", "by": 1, "when": "2022-01-01"},
+                                                                            {"version": "2.0.0", "by": 1, "when": "2022-06-15"}]}, "meta": {}}
+    remote = render_remote({}, registry)
+    cmds = [["certify", "tpaaa", "1.0.0", "2.0.0", "--accept-all", "--who", "tester", "--force"], ["check"], ["check", "--locked"]]
+    steps = [{"args": a, "remote": remote} for a in cmds]
+    steps[0]["remote"] = dict(remote, enter=True)         # the user presses ENTER at the criteria prompt
+    return {"id": cid, "kind": "history", "graph": {"packages": pkgs}, "store_struct": store,
+            "store": render_store(store), "steps": steps}
+
+
 def scenario_unpublished_vs_peer(cid, k=0):
     """deterministic history: a path crate declared audit-as-crates-io whose version crates.io does not serve; the closest
     published version is audited locally, a configured peer serves a full audit of the exact version, imports.lock records
@@ -1800,6 +1835,58 @@ JUNK_WILD = [
     'criteria = "safe-to-deploy"\nuser-id = 1\nstart = "2022-01-01"\n',
     'criteria = "mystery"\nuser-id = 1\nstart = "2022-01-01"\nend = "2023-01-01"\n',
 ]
+
+
+def junk_entries_for(name, version):
+    """ill-formed entries a peer might serve for one crate version: each would, if it were read as an audit of that version,
+    certify it for safe-to-deploy"""
+    return [
+        f'[[audits.{name}]]\ncriteria = "safe-to-deploy"\nversion = "{version}"\nviolation = "*"\n',            # two kinds
+        f'[[audits.{name}]]\ncriteria = "safe-to-deploy"\nversion = "{version}"\ndelta = "0.0.1 -> 0.0.2"\n',      # two kinds
+        f'[[audits.{name}]]\ncriteria = "safe-to-deploy"\ndelta = "{version}"\n',                                  # delta without from
+        f'[[audits.{name}]]\ncriteria = "safe-to-deploy"\nversion = "{version}"\nfuture-field = true\n',           # unknown field
+        f'[[audits.{name}]]\ncriteria = ["no-such-criteria"]\nversion = "{version}"\n',                            # unknown criteria only
+        f'[[audits.{name}]]\ncriteria = "safe-to-deploy"\nversion = "{version}"\nimportable = false\n',            # not importable
+        f'[[audits.{name}]]\nwho = 12\ncriteria = "safe-to-deploy"\nversion = "{version}"\n',                       # wrong type
+    ]
+
+
+def gen_junk_verdict_case(rng, cid):
+    """unlocked: one crates.io crate of the graph has NO record at all, everything else is exempted, and a configured peer
+    serves only ill-formed (or non-importable) entries for it: vet must fail for that crate — bad entries are skipped, they never
+    count"""
+    for _ in range(20):
+        case = gen_unlocked_case(rng, cid, p_violation=0.0)
+        store = case["store_struct"]
+        peers = case.get("peers_struct") or {}
+        ok = [pn for pn, imp in sorted(store["imports"].items())
+              if imp["url"][0] in peers and not any(k in BUILTINS for k in imp.get("criteria-map", {}))]
+        if ok:
+            break
+    else:
+        return None
+    dp, notes = _isolate_crate(rng, case, 4600)
+    if dp is None:
+        return None
+    peer = rng.choice(ok)
+    imp = store["imports"][peer]
+    imp["exclude"] = [x for x in imp.get("exclude", []) if x != dp["name"]]
+    if not imp["exclude"]:
+        imp.pop("exclude", None)
+    for pf in peers.values():
+        for tbl in ("audits", "wildcard_audits", "trusted"):
+            pf.get(tbl, {}).pop(dp["name"], None)
+    case["registry"]["packages"][dp["name"]] = [{"version": dp["version"], "by": None, "when": "2022-06-15"}]
+    case.pop("scenario", None)
+    case.pop("boosted_unpublished", None)
+    case = finalize(case)
+    url = imp["url"][0]
+    junk = rng.sample(junk_entries_for(dp["name"], vstr(dp)), rng.choice([1, 2, 3]))
+    case["peers"] = dict(case["peers"])
+    case["peers"][url] = case["peers"][url] + "\n" + "\n".join(junk)
+    case["junk_for"] = dp["name"]
+    case["junk"] = junk
+    return case
 
 
 def add_junk(rng, text, names):
@@ -2401,6 +2488,11 @@ def gen_unpack_case(rng, cid):
             {"path": f"{pre}/src/lib.rs", "kind": "file", "content": "duplicate entry"},
             {"path": f"{pre}/lying.rs", "kind": "file", "content": "short", "size": 4000},
             {"path": f"{pre}/emptydir", "kind": "dir"},
+            # directory entries are created too: the same confinement applies to them
+            {"path": f"{pre}/../sibling-0.1.0/src", "kind": "dir"},
+            {"path": f"{pre}/../../../escaped/deeper", "kind": "dir"},
+            {"path": f"{pre}/../other-1.0.0/planted", "kind": "dir"},
+            {"path": f"{pre}/sub/../okdir", "kind": "dir"},
             # the real name travels in a GNU long-name / PAX record; the header's own name is a harmless stand-in
             {"path": f"{pre}/innocent.rs", "long_name": "other-1.0.0/lib.rs", "kind": "file", "content": "overwritten via long name"},
             {"path": f"{pre}/innocent2.rs", "long_name": "../evil-long.txt", "kind": "file", "content": "evil"},
@@ -2446,6 +2538,17 @@ def gen_unpack_case(rng, cid):
 
 # --------------------------------------------------------------------------
 # C18: concurrent users of one store / one cache directory
+
+def gen_cache_contention_case(rng, cid):
+    """several invocations queueing on ONE cache directory at the same moment, each reading the persisted counter, thinking a
+    little and writing counter + 1 back when it lets go (plus two store users so that the store half is exercised too): the
+    final counter is the number of cache users — whoever gets the cache next sees everything the previous holder wrote"""
+    n = rng.choice([4, 5, 6, 8])
+    users = [{"role": "cache", "start_us": rng.randrange(0, 200), "think_us": rng.choice([200, 800, 2000])} for _ in range(n)]
+    users += [{"role": "writer", "start_us": rng.randrange(0, 300), "think_us": rng.choice([0, 200])} for _ in range(2)]
+    rng.shuffle(users)
+    return {"id": cid, "kind": "lock", "users": users, "padding": rng.choice([0, 20, 400])}
+
 
 def gen_lock_case(rng, cid):
     n = rng.choice([2, 2, 3, 3, 4, 5, 6, 8])
